@@ -15,6 +15,7 @@ Theorem C05_browser : forall e s r,
    status (fst (api_step e s r)) = status_not_found \/
    status (fst (api_step e s r)) = status_method_not_allowed).
 Proof. exact browser_refused. Qed.
+Print Assumptions C05_browser.
 
 Theorem C05_status_codes :
   status_browser_forbidden = 403 /\ status_proxy_not_found = 404 /\ status_toxic_not_found = 404 /\
@@ -22,10 +23,12 @@ Theorem C05_status_codes :
   status_bad_request_body = 400 /\ status_missing_field = 400 /\ status_invalid_stream = 400 /\
   status_invalid_toxic_type = 400 /\ status_created = 201 /\ status_no_content = 204 /\ status_ok = 200.
 Proof. repeat split; reflexivity. Qed.
+Print Assumptions C05_status_codes.
 
 Theorem C05_defaults :
   create_enabled_default = true /\ toxic_stream_default = "downstream"%string /\ toxic_toxicity_default_1024 = 1024.
 Proof. repeat split; reflexivity. Qed.
+Print Assumptions C05_defaults.
 
 (** unknown names yield 404 and change nothing *)
 Theorem C05_unknown_proxy : forall e s name b t,
@@ -43,6 +46,7 @@ Proof.
   unfold h_proxy_show, h_proxy_update, h_proxy_delete, h_toxic_index, h_toxic_create, h_toxic_show, h_toxic_update, h_toxic_delete.
   rewrite H. repeat split; reflexivity.
 Qed.
+Print Assumptions C05_unknown_proxy.
 
 (** a duplicate proxy name is refused with 409 whatever else the (well-formed) body says *)
 Theorem C05_duplicate_proxy : forall e s p name listen upstream,
@@ -55,6 +59,7 @@ Proof.
   destruct (String.eqb upstream "") eqn:E2; [apply String.eqb_eq in E2; congruence|].
   rewrite Hf. reflexivity.
 Qed.
+Print Assumptions C05_duplicate_proxy.
 
 (** every answer >= 400 outside the bind class leaves the registry unchanged (shared with C06) *)
 Theorem C05_errors_have_no_effect : update_in_place = false -> forall e s r,
@@ -64,6 +69,7 @@ Theorem C05_errors_have_no_effect : update_in_place = false -> forall e s r,
    exists h, fst (route routes (r_meth r) (r_path r) false) = Some h /\
              (h = "ProxyUpdate" \/ h = "Populate" \/ h = "ResetState")%string).
 Proof. exact rejected_unchanged. Qed.
+Print Assumptions C05_errors_have_no_effect.
 
 (** the registry invariant: in every state reachable from the empty server by ANY request sequence
     (valid, malformed, conflicting; populate and reset included) proxies are unique by name and
@@ -73,12 +79,14 @@ Theorem C05_registry_invariant : forall e rs,
   let s := snd (api_run e [] rs) in
   NoDup (map p_name s) /\ Forall (fun p => NoDup (map t_name (all_toxics p))) s.
 Proof. exact reachable_registry. Qed.
+Print Assumptions C05_registry_invariant.
 
 (** ... and one request preserves it from any state that has it *)
 Theorem C05_registry_step : forall e s r,
   NoDup (map p_name s) -> Forall (fun p => NoDup (map t_name (all_toxics p))) s ->
   NoDup (map p_name (snd (api_step e s r))) /\ Forall (fun p => NoDup (map t_name (all_toxics p))) (snd (api_step e s r)).
 Proof. intros e s r H1 H2. split; [exact (step_uniq e s r H1)|exact (step_tuniq e s r H2)]. Qed.
+Print Assumptions C05_registry_step.
 
 (** ---- every read reflects all earlier successful writes *)
 From TP Require Import Proofs.ApiReads.
@@ -86,6 +94,7 @@ From TP Require Import Proofs.ApiReads.
 Theorem C05_reads_are_pure : forall s n t,
   snd (h_proxy_index s) = s /\ snd (h_proxy_show s n) = s /\ snd (h_toxic_index s n) = s /\ snd (h_toxic_show s n t) = s.
 Proof. exact reads_are_pure. Qed.
+Print Assumptions C05_reads_are_pure.
 
 Theorem C05_create_then_read : forall e s b resp s',
   h_proxy_create e s b = (resp, s') -> status resp = status_created ->
@@ -93,6 +102,7 @@ Theorem C05_create_then_read : forall e s b resp s',
              h_proxy_show s' (p_name p') = (mkResp status_ok (PProxy p'), s') /\
              (forall m, m <> p_name p' -> find_proxy s' m = find_proxy s m).
 Proof. exact create_then_read. Qed.
+Print Assumptions C05_create_then_read.
 
 Theorem C05_update_then_read : forall e s n b resp s',
   h_proxy_update e s n b = (resp, s') -> status resp = status_ok ->
@@ -101,11 +111,13 @@ Theorem C05_update_then_read : forall e s n b resp s',
                h_proxy_show s' n = (mkResp status_ok (PProxy p'), s') /\
                (forall m, m <> n -> find_proxy s' m = find_proxy s m).
 Proof. exact update_then_read. Qed.
+Print Assumptions C05_update_then_read.
 
 Theorem C05_delete_then_read : forall s n resp s',
   NoDup (map p_name s) -> h_proxy_delete s n = (resp, s') -> status resp = status_no_content ->
   h_proxy_show s' n = (err status_proxy_not_found, s') /\ (forall m, m <> n -> find_proxy s' m = find_proxy s m).
 Proof. exact delete_then_read. Qed.
+Print Assumptions C05_delete_then_read.
 
 Theorem C05_toxic_requests_touch_one_proxy : forall s n t b m,
   m <> n ->
@@ -113,3 +125,4 @@ Theorem C05_toxic_requests_touch_one_proxy : forall s n t b m,
   find_proxy (snd (h_toxic_update s n t b)) m = find_proxy s m /\
   find_proxy (snd (h_toxic_delete s n t)) m = find_proxy s m.
 Proof. exact toxic_requests_frame. Qed.
+Print Assumptions C05_toxic_requests_touch_one_proxy.
